@@ -22,7 +22,8 @@ def load_contracts():
 
 def main(argv):
     load_contracts()
-    src = SourceIndex("/repo").load_tree()
+    import os
+    src = SourceIndex(os.environ.get("PYVC_ROOT", "/repo")).load_tree()
     verbose = "-v" in argv
     names = [a for a in argv if not a.startswith("-")] or [q for q, c in REGISTRY.items() if not c.inline and not c.trusted]
     tot = bad = 0
